@@ -61,7 +61,7 @@ def execute_step(step: Dict[str, Any], base: Path, idx: int, mkdtemps: List[str]
         outdir.mkdir(exist_ok=True)
     kw: Dict[str, Any] = {}
     if step.get("image"):
-        kw["docker_image"], kw["docker_tag"] = step["image"].split(":")
+        kw["docker_image"], kw["docker_tag"] = step["image"].rsplit(":", 1)
     if outdir is not None:
         kw["output_directory"] = outdir
     pow_.CALLS.clear()
@@ -146,7 +146,8 @@ def make_cases(ctx: Ctx) -> List[Dict[str, Any]]:
                     for outdir in ("none", "given"):
                         if outdir == "given" and R.random() < 0.5 and not ctx.quick:
                             pass
-                        image = R.choice([None, "custom/img:9.9"])
+                        # image names with a registry host:port prefix contain a ':' of their own
+                        image = R.choice([None, "custom/img:9.9", "localhost:5000/atlas/analysisbase:21.2.197", "registry.example.org:443/cms/cmssw:slc6_amd64"])
                         step = {"cls": cls, "files": files, "single": single, "label": label, "fexp": fexp, "image": image, "docker_md": md, "outdir": outdir, "outcome": oc}
                         i += 1
                         if ctx.quick and i % 3 != ctx.seed % 3 and label not in ("one_str", "different_dirs", "missing_file", "empty_list"):
